@@ -939,6 +939,11 @@ func (n *normalizer) expandMode(call *ast.CallExpr, st *inlState, tail bool) (pr
 		}
 	}
 	// parameters
+	type litParam struct {
+		pv  types.Object
+		lit *ast.FuncLit
+	}
+	var litParams []litParam
 	ai := 0
 	pi := 0
 	for _, f := range fd.Type.Params.List {
@@ -981,6 +986,20 @@ func (n *normalizer) expandMode(call *ast.CallExpr, st *inlState, tail bool) (pr
 			tmp := fmt.Sprintf("%s_p%d", tag, pi)
 			pi++
 			prefix = append(prefix, decl(tmp, pt, val))
+			if lit, isLit := ast.Unparen(val).(*ast.FuncLit); isLit && nm != nil && nm.Name != "_" {
+				if pv := n.info.Defs[nm]; pv != nil && n.litParamUsable(fd, pv) {
+					litParams = append(litParams, litParam{pv, lit})
+				}
+			} else if sel, isSel := ast.Unparen(val).(*ast.SelectorExpr); isSel && nm != nil && nm.Name != "_" {
+				// a method value handed in (collection.link): the receiver is evaluated here, once; every call of
+				// the parameter becomes a direct call of the method on it
+				if pv := n.info.Defs[nm]; pv != nil && n.litParamUsable(fd, pv) {
+					if lit, recvDecl, okMV := n.methodValueLiteral(sel, fmt.Sprintf("%s_mv%d", tag, pi), st, pos); okMV {
+						prefix = append(prefix, recvDecl...)
+						litParams = append(litParams, litParam{pv, lit})
+					}
+				}
+			}
 			if nm != nil && nm.Name != "_" {
 				bindL = append(bindL, ident(nm.Name, nm.Pos()))
 				bindR = append(bindR, ident(tmp, nm.Pos()))
@@ -1033,6 +1052,29 @@ func (n *normalizer) expandMode(call *ast.CallExpr, st *inlState, tail bool) (pr
 	}
 	cb := n.clone(fd.Body).(*ast.BlockStmt)
 	n.propagateMethodValues(cb)
+	// function literals handed in and only ever called: their bodies replace the calls (normalize_lit.go)
+	if len(litParams) > 0 {
+		declared := n.declaredNames(fd)
+		for _, lp := range litParams {
+			clash := false
+			for name := range n.freeNames(lp.lit) {
+				if declared[name] {
+					clash = true
+				}
+			}
+			if clash {
+				continue
+			}
+			savedStats := n.stats.Expanded
+			if !n.inlineLitCalls(cb, lp.pv, lp.lit) {
+				// a call stands where it cannot be rewritten: start again from a fresh copy, without this literal
+				n.stats.Expanded = savedStats
+				cb = n.clone(fd.Body).(*ast.BlockStmt)
+				n.propagateMethodValues(cb)
+				break
+			}
+		}
+	}
 	okBody := true
 	n.substIdents(cb, subst, st, pos, &okBody)
 	if !okBody {
